@@ -108,8 +108,7 @@ theorem hdr_run (s : DSt) (h : HSt) (c : Byte) (hp : h.pos ≤ 9) :
   have e1 := isHops_eq _ _ hh
   have e2 := isNorm_eq _ hn
   subst he e1 e2 hsk
-  have h0 : ({ inHeader := n2b (b2n h.inHeader), pos := h.pos, mx := n2b (b2n h.mx), my := n2b (b2n h.my),
-      mz := n2b (b2n h.mz), hops := 0 } : HSt) = { h with hops := 0 } := by simp [n2b_b2n]
+  have h0 : ({ inHeader := n2b (b2n h.inHeader), pos := h.pos, mx := n2b (b2n h.mx), my := n2b (b2n h.my), mz := n2b (b2n h.mz), hops := 0 } : HSt) = { h with hops := 0 } := by simp [n2b_b2n]
   have hh := hstep_hops h c
   simp only [Res.setv, expH, h0, UInt8.ofNat_toNat, enc, List.set_cons_zero]
   rw [hh]
@@ -141,5 +140,163 @@ theorem iter_eq (s : DSt) (h : HSt) (c : Byte) (hp : h.pos ≤ 9) :
   simp only [expect, Res.setv, enc]
   rcases hd : dstep s c with ⟨s', o⟩
   cases o <;> simp [hd] at hcl ⊢ <;> simp [hcl, List.set]
+
+
+/-! ### the whole loop -/
+
+/-- the automaton and the hop scanner run side by side over the input, as `blast()` runs them -/
+def mrun : DSt → HSt → Bytes → DRes × HSt
+  | _, h, [] => (.incomplete, h)
+  | s, h, c :: inp =>
+      match (dstep s c).2 with
+      | .data bs => let r := mrun (dstep s c).1 (hstep h c) inp
+                    (emit bs r.1, r.2)
+      | .done => (.accepted [] inp, hstep h c)
+      | .stray => (.stray, hstep h c)
+
+theorem mrun_fst : ∀ (inp : Bytes) (s : DSt) (h : HSt), (mrun s h inp).1 = drun s inp
+  | [], _, _ => rfl
+  | c :: inp, s, h => by
+      simp only [mrun, drun]
+      cases hd : (dstep s c).2 <;> simp [mrun_fst inp]
+
+/-- when the terminator is found, the scanner has seen exactly the bytes consumed -/
+theorem mrun_snd : ∀ (inp : Bytes) (s : DSt) (h : HSt) (b rest : Bytes), drun s inp = .accepted b rest →
+    ∃ consumed, inp = consumed ++ rest ∧ (mrun s h inp).2 = consumed.foldl hstep h
+  | [], _, _, _, _, hd => by simp [drun] at hd
+  | c :: inp, s, h, b, rest, hd => by
+      simp only [drun] at hd
+      simp only [mrun]
+      cases ho : (dstep s c).2 with
+      | data bs =>
+          simp only [ho] at hd
+          cases hr : drun (dstep s c).1 inp with
+          | accepted b' r' =>
+              simp only [hr, emit] at hd
+              injection hd with _ hrest
+              subst hrest
+              obtain ⟨cs, h1, h2⟩ := mrun_snd inp (dstep s c).1 (hstep h c) b' r' hr
+              exact ⟨c :: cs, by simp [h1], by simp [h2]⟩
+          | stray => simp [hr, emit] at hd
+          | incomplete => simp [hr, emit] at hd
+      | done =>
+          simp only [ho] at hd
+          injection hd with _ hrest
+          subst hrest
+          exact ⟨[c], by simp, by simp⟩
+      | stray => simp [ho] at hd
+
+def putsOf : List Ev → Bytes
+  | [] => []
+  | .put b :: l => UInt8.ofNat b :: putsOf l
+  | .hop :: l => putsOf l
+
+def hopCount : List Ev → Nat
+  | [] => 0
+  | .hop :: l => hopCount l + 1
+  | .put _ :: l => hopCount l
+
+theorem putsOf_append (a b : List Ev) : putsOf (a ++ b) = putsOf a ++ putsOf b := by
+  induction a with
+  | nil => rfl
+  | cons e a ih => cases e <;> simp [putsOf, ih]
+
+theorem hopCount_append (a b : List Ev) : hopCount (a ++ b) = hopCount a + hopCount b := by
+  induction a with
+  | nil => simp [hopCount]
+  | cons e a ih => cases e <;> simp [hopCount, ih] <;> omega
+
+theorem putsOf_replicate (n : Nat) : putsOf (List.replicate n Ev.hop) = [] := by
+  induction n with
+  | zero => rfl
+  | succ n ih => simp [List.replicate_succ, putsOf, ih]
+
+theorem hopCount_replicate (n : Nat) : hopCount (List.replicate n Ev.hop) = n := by
+  induction n with
+  | zero => rfl
+  | succ n ih => simp [List.replicate_succ, hopCount, ih]
+
+theorem putsOf_putEvs (bs : Bytes) : putsOf (putEvs bs) = bs := by
+  induction bs with
+  | nil => rfl
+  | cons b bs ih => simp [putEvs, putsOf] at ih ⊢; exact ih
+
+theorem hopCount_putEvs (bs : Bytes) : hopCount (putEvs bs) = 0 := by
+  induction bs with
+  | nil => rfl
+  | cons b bs ih => simp [putEvs, hopCount] at ih ⊢; exact ih
+
+theorem hstep_hops_le (h : HSt) (c : Byte) : h.hops ≤ (hstep h c).hops := by
+  rw [hstep_hops h c]; simp
+
+theorem mrun_hops_le : ∀ (inp : Bytes) (s : DSt) (h : HSt), h.hops ≤ (mrun s h inp).2.hops
+  | [], _, _ => by simp [mrun]
+  | c :: inp, s, h => by
+      have := hstep_hops_le h c
+      simp only [mrun]
+      cases (dstep s c).2 with
+      | data bs => have := mrun_hops_le inp (dstep s c).1 (hstep h c); simp; omega
+      | done => simpa
+      | stray => simpa
+
+/-- what an outcome of the extracted loop means for the session: bytes handed to the queue writer, unread input, and the
+number of `++*hops` executed -/
+def outView : Out → DRes × Nat
+  | .returned evs rest => (.accepted (putsOf evs) (rest.map UInt8.ofNat), hopCount evs)
+  | .exited _ evs => (.stray, hopCount evs)
+  | .starved evs _ => (.incomplete, hopCount evs)
+
+theorem map_ofNat_toNat (l : Bytes) : (l.map (fun b => b.toNat)).map UInt8.ofNat = l := by
+  induction l with
+  | nil => rfl
+  | cons b l ih => simp [ih]
+
+theorem map_ofNat_toNat' (l : Bytes) : List.map (UInt8.ofNat ∘ fun b => b.toNat) l = l := by
+  induction l with
+  | nil => rfl
+  | cons b l ih => simp [ih]
+
+/-- THE LOOP of the extracted source over any input = the automaton's run, with the hop count of the scanner -/
+theorem loop_eq : ∀ (inp : Bytes) (s : DSt) (h : HSt), h.pos ≤ 9 →
+    outView (loop body (enc s h) (inp.map (fun b => b.toNat))) = ((mrun s h inp).1, (mrun s h inp).2.hops - h.hops)
+  | [], s, h, _ => by simp [loop, outView, mrun, hopCount]
+  | c :: inp, s, h, hp => by
+      have hi := iter_eq s h c hp
+      have ih := loop_eq inp (dstep s c).1 (hstep h c) (hstep_pos_le h c hp)
+      have hle := hstep_hops_le h c
+      simp only [List.map_cons, loop, mrun]
+      generalize hr : iter body (enc s h) c.toNat = r at hi
+      obtain ⟨env, evs, ctl, sk⟩ := r
+      simp only [expect] at hi
+      rcases hd : dstep s c with ⟨s', o⟩
+      rw [hd] at hi ih
+      cases o with
+      | done =>
+          simp only [Prod.mk.injEq] at hi
+          obtain ⟨_, hev, hc⟩ := hi
+          have : ctl = .ret := by cases ctl <;> simp [cls] at hc ⊢
+          subst this hev
+          simp [outView, putsOf_replicate, hopCount_replicate, map_ofNat_toNat']
+      | stray =>
+          simp only [Prod.mk.injEq] at hi
+          obtain ⟨_, hev, hc⟩ := hi
+          have : ctl = .exit 0 := by cases ctl <;> simp [cls] at hc ⊢; exact hc
+          subst this hev
+          simp [outView, hopCount_replicate]
+      | data bs =>
+          simp only [Prod.mk.injEq] at hi
+          obtain ⟨henv, hev, hc⟩ := hi
+          subst henv hev
+          have hle2 := (mrun s' (hstep h c) inp).2.hops
+          have hmono : (hstep h c).hops ≤ (mrun s' (hstep h c) inp).2.hops := mrun_hops_le inp s' (hstep h c)
+          cases ctl <;> simp [cls] at hc <;>
+          · simp only []
+            generalize hl : loop body (enc s' (hstep h c)) (List.map (fun b => b.toNat) inp) = l at ih
+            cases l <;> simp only [outView, Prod.mk.injEq] at ih ⊢ <;>
+            · obtain ⟨h1, h2⟩ := ih
+              simp only [putsOf_append, hopCount_append, putsOf_replicate, hopCount_replicate, putsOf_putEvs,
+                hopCount_putEvs, h2, List.nil_append, Nat.add_zero]
+              refine ⟨?_, by omega⟩
+              rw [← h1]; simp [emit]
 
 end Nq.SmtpdSrc
